@@ -34,6 +34,10 @@ type conformTest struct {
 	// one (same failing cases with the same signatures, i.e. the same observable results;
 	// a case both back ends get wrong in the same way is not a difference between them).
 	Equiv map[string]int `json:"equiv"`
+	// PrefixProps: failing cases whose id starts with one of these prefixes count for the
+	// listed properties only (a harness that checks several things per input names the
+	// thing in the case id: "ownership:", "unicode-errors:"); all other cases count for Props.
+	PrefixProps map[string][]string `json:"prefix_props"`
 	Bound string         `json:"bound"`
 	What  string         `json:"what"`
 }
@@ -104,6 +108,12 @@ func runConform(prop string) []*conformResult {
 					for i := range envs {
 						needEnv[i] = true
 					}
+				}
+			}
+			for _, ps := range t.PrefixProps {
+				if hasPropExact(ps, prop) {
+					sel = true
+					needEnv[0] = true
 				}
 			}
 			if k, ok := t.Equiv[prop]; ok && k < len(envs) {
@@ -189,10 +199,24 @@ func runConform(prop string) []*conformResult {
 		for ei, rs := range perEnv {
 			for ti, r := range rs {
 				t := byName[r.Test]
-				std := prop == "ALL" || hasPropExact(t.Props, prop)
-				if !(std && (ei == 0 || t.AllEnvs)) {
-					r.fails = nil // run only as one side of a comparison
+				var keep []conformFailure
+				if ei == 0 || t.AllEnvs {
+					for _, f := range r.fails {
+						ps := t.Props
+						for pre, pp := range t.PrefixProps {
+							if strings.HasPrefix(f.ID, pre) {
+								ps = pp
+							}
+						}
+						if prop == "ALL" {
+							f.props = ps
+							keep = append(keep, f)
+						} else if hasPropExact(ps, prop) {
+							keep = append(keep, f)
+						}
+					}
 				}
+				r.fails = keep // (otherwise the run is only one side of a comparison)
 				if prop == "ALL" {
 					r.props = append(r.props, t.Props...)
 				}
